@@ -175,7 +175,7 @@ PLAN = {
                      (["pulltwice"], "depmin", ["NoRefusedPull", "AvailableAtUpdate"])],
                 known_mc=[(["pullfanout"], "intended", ["NoRefusedPull"], "C01-pull-fanout-eviction"),
                           (["repeatinteg"], "intended", ["NoRefusedPull"], "C01-repeated-time-at-integration")],
-                extra_trace=["pullfanout", "repeatinteg"]),
+                extra_trace=["pullfanout", "repeatinteg", "findep"]),
     "C02": dict(inv=[], prop=["OnlyAllowedChoices"], live=False,
                 quick=DAG_Q + ["ring2", "fanin2"], thorough=DAG_T + CYC_T,
                 neg=[(["pairL"], "nocompose", ["OnlyAllowedChoices"])], known_mc=[], extra_trace=[]),
